@@ -21,6 +21,11 @@ theorem stop_combine_fact : stopFact = true := rfl
 
 theorem facts_fresh : Facts.c06FactsStale = false := rfl
 
+/-- `taskHandleHookRun` has the rule "no Synchronization for v0 hooks" (the model's `prepare` applies it iff
+this regenerated fact says so; every theorem below needs it: without the rule a v0 binding whose
+converted configuration carries the flag is executed). -/
+theorem v0_rule_fact : Facts.c06V0SkipRule = true ∧ v0RuleFact = true := ⟨rfl, rfl⟩
+
 /-- `hooks` is the list `Init` leaves: sorted by path, no path twice. -/
 def PathSorted (hooks : List Hook) : Prop := hooks.Pairwise (fun a b => a.name < b.name)
 
@@ -227,6 +232,35 @@ theorem sync_once_or_skipped (h : Hook) (sc : List Bool) :
   · have hc := this.2.2 c (by rw [hx]; exact List.mem_cons_self ..)
     rw [this.1, hnil] at hc
     simp at hc
+
+/-- **C06.3 for configVersion v0.** Whatever `HookConfigV0.ConvertAndCheck` leaves in the flag of a v0
+binding (`convertV0`: the regenerated default `v0FlagFact`, no groups), a v0 hook is never executed with a
+Synchronization, and all its monitors are unlocked all the same. -/
+theorem v0_never_synchronized (h : Hook) (hv : h.v1 = false) (sc : List Bool) :
+    (convertV0 h).v1 = false ∧
+    execCtxs (hookPlan stopFact (convertV0 h) sc) = [] ∧
+    unlocked (hookPlan stopFact (convertV0 h) sc) = h.kube.map (·.name) := by
+  have hv' : (convertV0 h).v1 = false := by simp [convertV0, hv]
+  have hnames : (convertV0 h).kube.map (·.name) = h.kube.map (·.name) := by
+    simp [convertV0, hv, List.map_map, Function.comp_def]
+  refine ⟨hv', ?_, ?_⟩
+  · have h1 := (sync_before_events_and_schedules (convertV0 h) sc).1
+    obtain ⟨pre, hpre, hex, _, _⟩ := h1
+    have h2 := (sync_once_or_skipped (convertV0 h) sc).2.2 hv'
+    by_cases hk : (convertV0 h).kube.isEmpty
+    · by_cases hsch : (convertV0 h).sched <;> simp [hookPlan, hk, hsch, execCtxs]
+    · by_cases hsch : (convertV0 h).sched <;>
+        simp [hookPlan, hk, hsch, execCtxs_append, execCtxs_enableFailLog, execCtxs, h2]
+  · rw [← hnames]
+    exact (sync_once_despite_enable_faults [convertV0 h] (convertV0 h)
+      (by simp [findHook]) [] (fun _ => []) [] sc).2.2
+
+/-- non-vacuity: a v0 hook whose converted bindings carry the flag (what a converter that fills in the v1
+defaults would produce) is still skipped by the v0 rule -/
+example :
+    let h : Hook := { name := 1, v1 := false, onStartup := none, sched := false, kube := [⟨1, 0, true⟩, ⟨2, 0, true⟩] }
+    (run [h] (fun _ => [])).log =
+      [.enableKube 1, .skip 1 [.sync 1 0], .unlock [1], .skip 1 [.sync 2 0], .unlock [2]] := by decide
 
 /-- Whenever a run has emptied the queue it has reached *the* final state of `enable_order_alphabetical`
 (the driver runs `run` with the fuel `fuelBound` and reports the log only when the queue is empty). -/
